@@ -1055,9 +1055,9 @@ impl Prop for C43 {
     }
     fn budget(&self, tier: Tier) -> usize {
         match tier {
-            Tier::Quick => 2600,
-            Tier::Thorough => 60_000,
-            Tier::Search => 30_000,
+            Tier::Quick => 10_000,
+            Tier::Thorough => 300_000,
+            Tier::Search => 60_000,
         }
     }
     fn rule(&self) -> String {
